@@ -75,8 +75,11 @@ Print Assumptions C15_first_free_admissible.
 (* ---- component level: the reverse index as maintained by component.go's call order ---- *)
 
 (* Lookup of any (address, port) names exactly the subscriber holding the covering block, or nothing when no held
-   block covers the port.  [ops] ranges over all histories of activation (dataplane success or failure), activation
-   with an HA-synced record, release, and the two restore branches. *)
+   block covers the port.  [ops] ranges over all histories of activation, activation with an HA-synced record,
+   release, the two restore branches and late completion of dataplane deletes, and every event carries the outcome
+   of its southbound calls (add ok/failed, each delete ok/failed, bulk reprogram ok / per-mapping error / transport
+   error): the statement holds for every fault pattern, i.e. the reverse index follows the pool, not the dataplane
+   outcome. *)
 Theorem C15_reverse_lookup_exact :
   forall r p0 ops, wf_range r -> configure repaired r = Some p0 ->
   forall ip port,
@@ -131,7 +134,7 @@ Theorem C15_reverse_lookup_refuted :
     blocks_of (cp_pool s) 2 = [] /\ In (m_blk m) (blocks_of (cp_pool s) 3).
 Proof.
   exists [CActivate 1 1 true None; CRestoreDegraded 2 {| b_ip := 1681915905; b_start := 1040; b_end := 1055 |};
-          CActivate 6 2 true None; CRelease 6 2; CActivate 7 3 true None].
+          CActivate 6 2 true None; CRelease 6 2 [true]; CActivate 7 3 true None].
   eexists. vm_compute. split; [reflexivity|]. split; [reflexivity|]. split; [reflexivity|]. left; reflexivity.
 Qed.
 Print Assumptions C15_reverse_lookup_refuted.
@@ -145,6 +148,21 @@ Proof.
   vm_compute. split; left; reflexivity.
 Qed.
 Print Assumptions C15_duplicate_address_refuted.
+
+(* HA-synced activation whose dataplane add fails: the rollback releases every block of the subscriber but leaves
+   the reverse entry that the earlier (degraded) restore created; port 1040 still names subscriber 2, who holds
+   nothing.  Only the rollback repair is missing in this variant. *)
+Definition only_rollback_missing : variant :=
+  {| v_validate := true; v_replace := true; v_dedup := true; v_rollback := false |}.
+Theorem C15_synced_rollback_refuted :
+  exists ops m, let s := crun only_rollback_missing (effective ex_raw1) (comp_init (pool_of repaired ex_raw1)) ops in
+    rev_lookup (cp_rev s) 1681915905 1040 = Some m /\ m_sub m = 2 /\ blocks_of (cp_pool s) 2 = [].
+Proof.
+  exists [CRestoreDegraded 2 {| b_ip := 1681915905; b_start := 1040; b_end := 1055 |};
+          CSynced 6 2 2 {| b_ip := 1681915905; b_start := 1040; b_end := 1055 |} false None].
+  eexists. vm_compute. repeat split.
+Qed.
+Print Assumptions C15_synced_rollback_refuted.
 
 (* non-vacuity of the hypotheses: the same geometry, a history with allocations by two subscribers, a release, a
    valid restore and a refused (unaligned) restore, run on the repaired model *)
@@ -167,8 +185,10 @@ Example C15_component_nonvacuous :
   wf_range ex_raw1 /\ configure repaired ex_raw1 <> None /\
   let s := crun repaired (effective ex_raw1) (comp_init (pool_of repaired ex_raw1))
              [CActivate 1 1 true None; CRestoreDegraded 2 {| b_ip := 1681915905; b_start := 1040; b_end := 1055 |};
-              CActivate 6 2 true None; CRestorePresent 8 4 {| b_ip := 1681915905; b_start := 1041; b_end := 1056 |};
-              CRelease 6 2; CActivate 7 3 true None; CActivate 9 5 false None] in
+              CActivate 6 2 true None; CRestorePresent 8 4 {| b_ip := 1681915905; b_start := 1041; b_end := 1056 |} 0;
+              CRestorePresent 10 4 {| b_ip := 1681915905; b_start := 1072; b_end := 1087 |} 1;
+              CRelease 6 2 [false]; CComplete; CActivate 7 3 true None; CActivate 9 5 false None;
+              CSynced 11 5 5 {| b_ip := 1681915905; b_start := 1088; b_end := 1103 |} false None] in
   option_map m_sub (rev_lookup (cp_rev s) 1681915905 1030) = Some 1 /\
   option_map m_sub (rev_lookup (cp_rev s) 1681915905 1040) = Some 3 /\
   rev_lookup (cp_rev s) 1681915905 1056 = None /\
